@@ -258,7 +258,7 @@ impl Check for C14 {
                     if tier == Tier::Quick && pinned != dg {
                         continue;
                     }
-                    u.push(json!({"kind":"honest","dialer":j(d),"listener":j(l),"pinned":pinned,"dialer_greater":dg}));
+                    u.push(json!({"kind":"honest","dialer":j(d),"listener":j(l),"pinned":pinned,"dialer_greater":dg,"bound":tier.pick(0, 1)}));
                 }
             }
         }
@@ -283,7 +283,34 @@ impl Check for C14 {
             return;
         }
         let (u, u2) = (unit.clone(), unit.clone());
-        explore_sim(out, crate::seed(), unit, 2_000, 0, 1, true, move |sim| scenario(sim, u.clone()).boxed(), |o: &Obs, _p, _c| judge(&u2, o));
+        let bound = unit["bound"].as_u64().unwrap_or(0) as usize;
+        explore_sim(
+            out,
+            crate::seed(),
+            unit,
+            2_000,
+            bound,
+            2_000,
+            true,
+            move |sim| {
+                let u = u.clone();
+                async move {
+                    if bound > 0 {
+                        sim.fabric.set_fate_window(0, 14);
+                    }
+                    scenario(sim, u).await
+                }
+                .boxed()
+            },
+            |o: &Obs, _p, c| {
+                let mut j = judge(&u2, o);
+                if c.iter().any(|x| *x != 0) {
+                    // with an injected fault a legitimate connect may fail; only wrongful admission counts
+                    j.violations.retain(|(k, _)| k != "compatible-names-rejected");
+                }
+                j
+            },
+        );
     }
 
     fn replay(&self, replay: &Value) -> String {
